@@ -196,9 +196,15 @@ class Driver:
         and is closed again: whatever the object remembers across close() now answers with the decoy's records."""
         iso.close()
         if decoy:
-            dd = self.decoy_of(disk)
-            if dd is not None:
-                iso.open_fp(SimFile(dd, 'rb'))
+            # first an older generation of this image, if there is one: it has the names that were removed since
+            older = [self.disks[-2]] if len(self.disks) >= 2 else []
+            for dd in older + [self.decoy_of(disk)]:
+                if dd is None:
+                    continue
+                try:
+                    iso.open_fp(SimFile(dd, 'rb'))
+                except Exception:
+                    continue
                 try:
                     self.touch_all_names(iso)
                 finally:
